@@ -233,6 +233,9 @@ void arena::process(thread_data& tls) {
     tls.my_inbox.detach();
     __TBB_ASSERT(tls.my_inbox.is_idle_state(true), nullptr);
     __TBB_ASSERT(is_alive(my_guard), nullptr);
+    // A thread blocked in task_arena::execute() waits for a free slot on my_exit_monitors;
+    // a worker that gives its slot back has to tell it, as a leaving external thread does.
+    my_exit_monitors.notify_one(); // do not relax!
 
     // In contrast to earlier versions of TBB (before 3.0 U5) now it is possible
     // that arena may be temporarily left unpopulated by threads. See comments in
